@@ -240,7 +240,17 @@ def _comp(t, T):
     ws = t["weights"]
     lam = t["wavelength"]
     vec = isinstance(lam, list)
-    calc = nsf.neutron_composite_sld(mats, wavelength=np.array(lam) if vec else lam)
+    warg = np.array(lam, dtype=float) if vec else lam
+    if not vec and t.get("wtype"):
+        warg = getattr(np, t["wtype"])(lam)             # a numpy scalar (np.int64 from arange, np.float32 from a file)
+    handed = list(mats)
+    calc = nsf.neutron_composite_sld(handed, wavelength=warg)
+    if t.get("reuse_args"):
+        # the caller goes on using its list and its wavelength buffer for something else before the first call
+        handed.reverse()
+        handed.append(P.formula("Gd"))
+        if vec:
+            warg *= 3.0
     lams = lam if vec else [lam]
     evs = []
 
